@@ -128,6 +128,19 @@ theorem allow_list_exact :
 theorem lock_balance : balanced balance = true := by
   decide
 
+/-- C19 "never read and write the same memory without synchronisation", objects of the informer caches: a value obtained
+from any `…Lister….Get/List` call or handed to an informer event handler is the ONE object every other goroutine
+reads; in the regenerated table of their uses (where obtained, to which same-package function passed — parameter taint
+to a fixpoint — and where assigned through) no use is a write: such objects are only read, or copied (`DeepCopy`) first. -/
+theorem lister_objects_never_written : cacheNeverWritten cacheUses = true := by
+  decide +kernel
+
+/-- Non-vacuity: the table sees the pod / pool / statefulset / deployment / node / policy / namespace listers and the
+event handlers; the checker rejects a write. -/
+example : cacheUses.length ≥ 40 ∧
+    cacheNeverWritten [⟨0, .obtained, "PoolLister", ""⟩, ⟨0, .written, "PoolLister", "p.Size = …"⟩] = false := by
+  decide +kernel
+
 /-- the table is not empty / trivial: it contains guarded writes, guarded reads and helper call sites -/
 example : numAccesses ≥ 100 ∧ numSites ≥ 100 ∧ (checked table).length ≥ 100 ∧ table.entry.length ≥ 5 := by
   decide +kernel
